@@ -817,11 +817,12 @@ class MacroProgram(ElementProgram):
         # for a statement, the result would depend on their order.
         seen = set()
         for attr in start['attrs']:
+            # (the namespace is the one the parser resolved: an undeclared
+            # prefix is foreign, it does not stand for the element's own)
             prefix, colon, name = attr['name'].partition(':')
-            if colon:
-                ns = start['ns_map'].get(prefix, start['namespace'])
-            else:
-                ns, name = start['namespace'], prefix
+            ns = attr['namespace']
+            if not colon:
+                name = prefix
             if ns in self.DROP_NS and (ns, name) in seen:
                 raise LanguageError(
                     "Statement given twice on the same element.",
